@@ -299,6 +299,41 @@ theorem run_good (p : Policy) (host0 : Option Nat) (ls : List Label) : Good p (r
   | nil => exact h0
   | cons l r ih => exact ih _ (step_good p s0 l h0)
 
+/-! ### the other direction: configured retries happen -/
+
+theorem shouldRetry_yes (rem : Int) (h : rem ≠ 0) : shouldRetry rem true true = (rcShouldRetry, rem - 1) := by
+  unfold shouldRetry; simp [h]
+
+theorem resetGuard_of_retryable (p : Policy) (o : Outcome) (h : retryable p o = true) : resetGuard (reasonOf o) false true = true := by
+  cases o <;> simp [retryable] at h <;>
+    simp [resetGuard, reasonOf, poolFailReason, streamConnectionFailed, streamConnectionTermination, upstreamPerTryTimeout, upstreamGlobalTimeout]
+
+/-- the other direction: a retryable outcome with budget left, an admitting breaker, a healthy host and a worker pass left IS retried -/
+theorem step_retries (p : Policy) (s : St) (l : Label) (h : Nat)
+    (hlive : s.live = true) (hrs : s.hasRS = true) (hst : s.started = false) (hrem : s.remaining ≠ 0) (hloops : s.loops ≠ 0)
+    (hret : retryable p l.o = true) (hcc : l.canCreate = true) (hh : l.host = some h)
+    (hpt : l.o = .perTry → p.tryTimeout = true) :
+    (step p s l).trace = s.trace ++ [.outcome l.o, .choose s.attempts, .attempt s.attempts h] ∧
+    (step p s l).attempts = s.attempts + 1 ∧ (step p s l).remaining = s.remaining - 1 := by
+  obtain ⟨rem, rs, st, lv, lo, att, ls, tr⟩ := s
+  obtain ⟨o, cc, host⟩ := l
+  simp only at hlive hrs hst hrem hloops hret hcc hh hpt
+  subst hlive hrs hst hcc hh
+  unfold step
+  have hpt' : ¬ (o = .perTry ∧ p.tryTimeout = false) := by
+    intro ⟨a, b⟩; rw [hpt a] at b; simp at b
+  simp only [hpt', if_false, Bool.true_eq_false]
+  by_cases hr : ∃ c, o = .resp c
+  · obtain ⟨c, rfl⟩ := hr
+    have hchk := check_resp p c
+    simp [stepResp, headersGuard, retryCall, hchk, hret, shouldRetry_yes _ hrem, retry, headersRetryCond, setupRetryResult,
+      rcShouldRetry, doRetry, hloops]
+  · have ho : ∀ c, o ≠ .resp c := fun c hc => hr ⟨c, hc⟩
+    have hchk := check_reset p o ls.isNone (ls.getD 0) ho
+    have hg := resetGuard_of_retryable p o hret
+    simp [stepReset, hg, retryCall, hchk, hret, shouldRetry_yes _ hrem, retry, resetRetryCond, setupRetryResult,
+      rcShouldRetry, doRetry, hloops]
+
 /-! ### what an accepted trace means (facts about the acceptor alone) -/
 
 theorem scan_n (p : Policy) (c0 c : Scan) (t : List Ev) (h : scan p c0 t = some c) : c.n = c0.n + attemptCount t := by
